@@ -14,7 +14,7 @@ META = {
                                'c03-be-2d', 'c03-be-scalar', 'c03-le-2d', 'c03-special', 'c03-rand', 'c03-cast',
                                'c03-src-inline', 'c03-src-dict', 'c03-src-struct', 'c03-src-hdf5', 'c03-struct-fastpath',
                                'c03-struct-permuted', 'c03-struct-aligned', 'c03-struct-view', 'c03-struct-packed', 'c03-cast-history',
-                               'c03-cast-declared-equal-to-derived', 'c03-many-rows', 'c03-int-cast-out-of-range',
+                               'c03-cast-declared-equal-to-derived', 'c03-many-rows', 'c03-int-cast-out-of-range', 'c03-several-logical-files',
                                'c03-int-cast-hdf5', 'c03-int-cast-dict', 'c03-row-size-window']
                      + ['c03-dtype-' + d for d in gen.DTYPES]},
     'exhaustive_windows': {
@@ -59,6 +59,10 @@ def cases(tier, seed):
     # declared casts over a history: write, (re)declare the cast, write other data of another dtype
     for k in range(80 if tier == 'quick' else 2000):
         yield {'stratum': 'cast-history', 'index': k, 'kind': 'cast-history'}
+    # several logical files, each with its own frame(s) -- same frame and channel names, other row counts: every logical file
+    # must hold one record per row of ITS frames and nothing else
+    for k in range(40 if tier == 'quick' else 800):
+        yield {'stratum': 'several-logical-files', 'index': k, 'kind': 'multi-lf'}
     # floats cast (as declared) to a type that cannot hold some of them: numpy leaves the result undefined -- it depends on
     # the number of values converted at once and on the memory layout -- so there are no "declared cast" bits to return
     for k in range(150 if tier == 'quick' else 3000):
@@ -247,6 +251,26 @@ def run_case(case):
                             'detail': f'every value in the window has a defined cast, but the write was refused: {run.wout[2][:200]}',
                             'spec': sp})
                 return {'evals': evals, 'violations': vio, 'obs': obs, 'sigs': sorted(set(sigs)), 'sample': sample}
+        elif case['kind'] == 'multi-lf':
+            nlf = r.choice([2, 2, 3])
+            sp = gen.base_spec(r.choice([128, 8192]), lfs=[{'fh_id': f'LF{j}'} for j in range(nlf)])
+            source = r.choice(['inline', 'inline', 'dict', 'hdf5'])
+            same = r.random() < 0.6
+            for lf in range(nlf):
+                n = r.choice([1, 3, 5, 8])
+                sp['ops'].append(dict(gen.origin_op(f'ORIGIN{lf}', fsn=3 + lf), lf=lf, set_name=f'S{lf}'))
+                idx = []
+                for c in range(r.choice([1, 2, 3])):
+                    shape = (n,) if c == 0 or r.random() < 0.6 else (n, r.choice([2, 3]))
+                    op = gen.channel_op(f'CH{c}' if same else f'L{lf}CH{c}', gen.dtstr(r.choice(gen.DTYPES), r.choice('<>')), shape,
+                                        fill={'kind': 'pos', 'tag': 10 * lf + c + 1}, lf=lf, set_name=f'S{lf}')
+                    if source != 'inline':
+                        op['dataset_name'] = f'lf{lf}_c{c}'
+                    sp['ops'].append(op)
+                    idx.append(len(sp['ops']) - 1)
+                sp['ops'].append(dict(gen.frame_op('MAIN' if same else f'MAIN{lf}', idx, lf=lf), set_name=f'S{lf}'))
+            sp['write'] = {'source': source, 'output_chunk_size': 2 ** 16, 'input_chunk_size': r.choice([None, 1, 2])}
+            bump('c03-several-logical-files')
         elif case['kind'] == 'int-cast':
             sp = gen.int_cast_spec(r, nframes=1)
             bump('c03-int-cast-out-of-range')
